@@ -87,6 +87,7 @@ func main() {
 	pkgsFlag := flag.String("pkgs", "./pub", "comma separated package patterns")
 	contracts := flag.String("contracts", "", "comma separated contract files (comment lines //@)")
 	specDir := flag.String("spec", "/verif/spec", "directory with *.spec prelude files")
+	genSpec := flag.String("genspec", "", "comma separated spec files with generated contracts for repo functions (verified, not assumed)")
 	out := flag.String("out", "", "output JSON file")
 	only := flag.String("funcs", "", "regexp restricting the functions verified")
 	timeout := flag.Int("timeout", 5, "per-obligation solver timeout (s)")
@@ -113,6 +114,15 @@ func main() {
 	if err := sp.loadDir(*specDir); err != nil {
 		fmt.Fprintln(os.Stderr, "spec:", err)
 		os.Exit(2)
+	}
+	for _, gf := range strings.Split(*genSpec, ",") {
+		if gf == "" {
+			continue
+		}
+		if err := sp.loadSpecFile(gf, "", false); err != nil {
+			fmt.Fprintln(os.Stderr, "genspec:", err)
+			os.Exit(2)
+		}
 	}
 	for _, cf := range strings.Split(*contracts, ",") {
 		if cf == "" {
